@@ -37,6 +37,7 @@ DECIDED = [
     'R5 an optional unit (Unit.Radian == 0) is never tested for truthiness',
     'R6 a unit-name string reaches getattr(PreferredUnits, s) only under a membership test in the slot table and '
     'becomes a Unit only through the resolver',
+    'R1b create_interface_config evaluated on a symbolic caller dict: each of the 8 settings arrives in the Config exactly as given; it stores nothing into the dict it is given (effect analysis); R4 follows compiled module-level patterns',
 ]
 NOT_DECIDED = ['that an override changes the computed numbers as intended (runtime); the air-path inequality as '
                'numbers (second-order growth of the air speed within one step is covered by the factor 1/kappa)']
